@@ -81,6 +81,8 @@ type Spec struct {
 	Passphrase string        `json:"passphrase"` // account passphrase (default "pass")
 	// UnlockerPassphrases defaults to [Passphrase].
 	UnlockerPassphrases []string `json:"unlocker_passphrases"`
+	// Tag is not used by anything: two specs that differ in it get two separate instances (fresh wallets, every account still locked).
+	Tag string `json:"tag,omitempty"`
 }
 
 // SecretKey returns the deterministic private key number i (always below the group order).
